@@ -245,6 +245,8 @@ class Interp:
         if isinstance(node, ast.UnaryOp) and isinstance(node.op, ast.USub) and isinstance(node.operand, ast.Constant) \
                 and isinstance(node.operand.value, (int, float)) and not isinstance(node.operand.value, bool):
             return self.const(-node.operand.value)
+        if isinstance(node, ast.Attribute) and self.model.resolve(f.module, node) == "sys.maxsize":
+            return VOpaque("sys.maxsize")
         return VOpaque("default:" + norm(node)[:30])
 
     def const(self, v):
@@ -300,6 +302,9 @@ class Interp:
                 self.exec_block(s.body, fr)
             else:
                 self.exec_block(s.orelse, fr)
+            return
+        if isinstance(s, ast.Try):
+            self.exec_try(s, fr)
             return
         if isinstance(s, ast.For):
             self.exec_for(s, fr)
@@ -719,6 +724,46 @@ class Interp:
         # final state
         fr.env[acc] = _as_vtensor(spec_call(hook["state"], self, fr, n))
 
+    def exec_try(self, s, fr):
+        """try / except / else / finally.  A modelled exception (a `raise` of the library, an IndexError of a concrete list, a torch shape error
+        found by the type checker) is handed to the first handler whose class list covers it; everything else propagates."""
+        BASES = {"Exception", "BaseException"}
+        RUNTIME = {"RuntimeError", "Exception", "BaseException"}
+
+        def handler_for(exc_name, runtime=False):
+            for h in s.handlers:
+                if h.type is None:
+                    return h
+                types = h.type.elts if isinstance(h.type, ast.Tuple) else [h.type]
+                for t in types:
+                    q = self.model.resolve(fr.f.module, t)
+                    nm = q.rsplit(".", 1)[-1] if q else norm(t)
+                    if nm == exc_name or nm in BASES or (runtime and nm in RUNTIME):
+                        return h
+            return None
+        try:
+            try:
+                self.exec_block(s.body, fr)
+            except Raised as r:
+                h = handler_for(r.exc)
+                if h is None:
+                    raise
+                if h.name:
+                    fr.env[h.name] = VOpaque("exception:" + r.exc)
+                self.exec_block(h.body, fr)
+            except TypeViolation as tv:
+                h = handler_for("RuntimeError", runtime=True)
+                if h is None:
+                    raise
+                if h.name:
+                    fr.env[h.name] = VOpaque("exception:RuntimeError")
+                self.exec_block(h.body, fr)
+            else:
+                self.exec_block(s.orelse, fr)
+        finally:
+            if s.finalbody:
+                self.exec_block(s.finalbody, fr)
+
     # ------------------------------------------------------------------ expressions
     def ev(self, e, fr) -> Value:
         m = getattr(self, "ev_" + type(e).__name__, None)
@@ -814,6 +859,8 @@ class Interp:
     def binop(self, op, l, r, fr, node):
         if isinstance(l, VStr) or isinstance(r, VStr):
             return VStr("")
+        if isinstance(op, ast.Add) and isinstance(l, VOpaque) and l.tag.startswith("userint:") and isinstance(r, VInt) and r.p.const_value() is not None:
+            return VOpaque(f"userint+:{l.tag.split(':', 1)[1]}:{int(r.p.const_value())}")      # a caller's integer plus a constant
         if self.lenient and (isinstance(l, VOpaque) or isinstance(r, VOpaque)):
             if isinstance(op, (ast.Mult, ast.Div)) and isinstance(l, VTensor) and isinstance(r, VOpaque):
                 return VTensor(_scale(l.val, Coef.sym("untyped-scalar")), l.dtype)        # a run-time scalar factor: the shape is what matters here
@@ -833,6 +880,15 @@ class Interp:
                     return VInt(P.const(int(ca) // int(cb)))
                 q = self.facts.norm(l.p).div(self.facts.norm(r.p))
                 if q is None:
+                    # a // b on a path where a % b == 0 was established: a = b * q with a new quantity q >= 1
+                    a_, b_ = self.facts.norm(l.p), self.facts.norm(r.p)
+                    key = (repr(a_), repr(b_))
+                    md = getattr(self, "mods", {}).get(key)
+                    if md is not None and self.facts.norm(P.atom(md)) == ZERO and a_.is_monomial() and len(a_.atoms()) == 1 and self.facts.assume_eq is not None:
+                        qn = self.fresh_atom(f"({a_!r} div {b_!r})")
+                        self.facts.lb[qn] = 1
+                        if self.facts.assume_eq(a_, b_ * P.atom(qn), "exact quotient"):
+                            return VInt(P.atom(qn))
                     raise Unmodelled(f"inexact symbolic division {l.p!r} // {r.p!r}")
                 return VInt(q)
             if isinstance(op, ast.Mod):
@@ -840,6 +896,9 @@ class Interp:
                 if a is not None and b is not None and b != 0:
                     return VInt(P.const(int(a) % int(b)))
                 nm = self.fresh_atom(f"({self.facts.norm(l.p)!r} mod {self.facts.norm(r.p)!r})")
+                if not hasattr(self, "mods"):
+                    self.mods = {}
+                self.mods[(repr(self.facts.norm(l.p)), repr(self.facts.norm(r.p)))] = nm
                 self.facts.lb[nm] = 0
                 _install_ge(self.facts, r.p - 1 - P.atom(nm), 0)
                 return VInt(P.atom(nm))
@@ -909,7 +968,11 @@ class Interp:
             if isinstance(op, ast.Mult):
                 return VScalar(sl * sr)
             if isinstance(op, ast.Div):
-                return VScalar(sl * sr.inv())
+                try:
+                    return VScalar(sl * sr.inv())
+                except ZeroDivisionError:
+                    raise TypeViolation(f"division by a quantity that is exactly zero here (`{norm(node)[:70]}`): ZeroDivisionError for python numbers, "
+                                        "an infinite / undefined value for numpy and torch scalars - a tolerance computed this way truncates everything")
             if isinstance(op, ast.Pow) and isinstance(r, VFloat) and r.x == 0.5 and isinstance(l, (VInt, VFloat, VScalar)):
                 from .torchmodel import _sqrt_scalar
                 return _sqrt_scalar(l)      # x ** 0.5
@@ -965,6 +1028,9 @@ class Interp:
                         b = net.insert_axis(b, 0)
                 if isinstance(op, ast.Mult) and a.ndim() == b.ndim():
                     return VTensor(net.mul_elementwise(self.sp, a, b), l.dtype)
+                if isinstance(op, ast.Div) and a.ndim() == b.ndim() and a.ndim() >= 1:
+                    # a / b entry by entry: a times the entrywise reciprocal of b (same broadcasting, same size identifications)
+                    return VTensor(net.mul_elementwise(self.sp, a, net.recip_atom(self.sp, b)), l.dtype)
                 raise Unmodelled("elementwise product of tensors")
         if isinstance(op, (ast.Add, ast.Sub)):
             if isinstance(l, VTensor) and isinstance(r, VTensor):
